@@ -8,7 +8,7 @@ import (
 )
 
 func init() {
-	allFacts = append(allFacts, factCbConds, factCaps, factSerial, factGuards)
+	allFacts = append(allFacts, factCbConds, factCaps, factSerial, factGuards, factStackErrAssert)
 }
 
 // boolExpr translates a Go boolean expression over a fixed vocabulary into Lean Bool syntax.
@@ -342,4 +342,41 @@ func factGuards() {
 	emit("/-- F6c: a source-reported error is forwarded to OnWatchedError when this holds -/\ndef deliverSrcErr (skipVerify suppress : Bool) : Bool := %s\n\n", srcErr)
 	emit("/-- F6d: the monitor's initial skipVerify -/\ndef initialSkipVerify (delay : Bool) : Bool := %s\n\n", skip0)
 	_ = fmt.Sprint
+}
+
+// factStackErrAssert (F6e): compose returns a nil interface next to a stacking error, so a type assertion inside
+// updateSourceValue's `if stackErr != nil` branch must be of the two-value form (a single-value assertion panics on
+// the monitor goroutine, which nothing can recover).  The runtime model's .gotValue step goes straight to the
+// error submission, i.e. it assumes the branch cannot panic.
+func factStackErrAssert() {
+	f := parse("dials.go")
+	found, safe := false, true
+	if fd := funcDecl(f, "updateSourceValue"); fd != nil {
+		ast.Inspect(fd, func(n ast.Node) bool {
+			is, ok := n.(*ast.IfStmt)
+			if !ok || src(is.Cond) != "stackErr != nil" {
+				return true
+			}
+			found = true
+			commaOK := map[ast.Expr]bool{}
+			ast.Inspect(is.Body, func(m ast.Node) bool {
+				switch x := m.(type) {
+				case *ast.AssignStmt:
+					if len(x.Lhs) == 2 && len(x.Rhs) == 1 {
+						commaOK[x.Rhs[0]] = true
+					}
+				case *ast.TypeAssertExpr:
+					if x.Type != nil && !commaOK[x] {
+						safe = false
+					}
+				}
+				return true
+			})
+			return false
+		})
+	}
+	if !found {
+		miss("F6e", "dials.go updateSourceValue: `if stackErr != nil { … }`")
+	}
+	emit("/-- F6e: every type assertion in updateSourceValue's stacking-error branch has the two-value form (compose\nreturns a nil interface there) -/\ndef stackErrAssertCommaOk : Bool := %v\n\n", safe)
 }
